@@ -44,6 +44,10 @@ def generate(seed, tier):
         rng.shuffle(block['eqs'])
     knobs = {'reduction': True, 'tol_param': S['knobs'].choice([1e-12, 1e-12, 1e-10, 1e-8, None]),
              'cap': S['knobs'].choice([3000, 5000]), 'trace_step': None, 'maxtime_attr': None, 'tick_var': None}
+    if S['swarm'].random() < 0.2:
+        # the optional initial steady-state search installs k=0 values: they too must not depend on the reduction
+        knobs['steady'] = {'T': S['knobs'].choice([20, 40]), 'tol': 1e-4, 'excluded': ['t']}
+        knobs['tol_param'] = 1e-12      # the search solves at the tolerance in force: keep its noise far below the bound
     return {'kind': 'EQN', 'profile': 'reduction_twin', 'drive': S['knobs'].choice(['mono', 'step']), 'faults': [],
             'expect': {}, 'block': block, 'knobs': knobs,
             'meta': {'q': meta['q'], 'n': meta['n'], 'nonlinear': meta['nonlinear']}}
@@ -63,7 +67,7 @@ def twin(case, tol=None, cap=None):
     return r_on, r_off
 
 
-def compare(r_on, r_off, thr_rel):
+def compare(r_on, r_off, thr_rel, k0_exact=True):
     """Returns (kind, details) of the first discrepancy or None."""
     s_on, s_off = r_on['series'], r_off['series']
     if set(s_on) != set(s_off):
@@ -75,7 +79,9 @@ def compare(r_on, r_off, thr_rel):
         if len(a) != len(b):
             return 'length-differs', {'var': v, 'reduced': len(a), 'unreduced': len(b)}
         if len(a) and not eqn.same(a[0], b[0]):
-            return 'k0-mismatch', {'var': v, 'reduced': a[0], 'unreduced': b[0]}
+            if k0_exact or not (core.is_finite_number(a[0]) and core.is_finite_number(b[0])) or \
+                    abs(a[0] - b[0]) > max(thr_rel, 1e-7) * (1.0 + max(abs(a[0]), abs(b[0]))):
+                return 'k0-mismatch', {'var': v, 'reduced': a[0], 'unreduced': b[0]}
     scale = max([1.0] + [abs(x) for s in s_off.values() for x in s if core.is_finite_number(x)])
     for v in sorted(s_on):
         a, b = s_on[v], s_off[v]
@@ -127,6 +133,9 @@ def execute(case):
     if not viol:
         if r_on['outcome'] != r_off['outcome']:
             conv = {'ok', 'ConvergenceError'}
+            if case['knobs'].get('steady'):
+                # refusals of the steady-state search (and marginal accept/refuse flips) are not value differences
+                conv = {'ok', 'ConvergenceError', 'ValueError', 'NoEquilibriumError'}
             if {r_on['outcome'], r_off['outcome']} <= conv:
                 st['inconclusive_nonconvergent'] = 1
             else:
@@ -135,12 +144,13 @@ def execute(case):
                                            msg_reduced=r_on['message'], msg_unreduced=r_off['message']))
         elif both_ok:
             tol = eqn.tolerance_in_force(case['block'], case['knobs'])
-            d = compare(r_on, r_off, 100.0 * tol)
+            k0x = not case['knobs'].get('steady')      # k=0 values installed by an iterative search are numeric
+            d = compare(r_on, r_off, 100.0 * tol, k0_exact=k0x)
             if d is not None and d[0] == 'value-mismatch' and 'diff' in d[1]:
                 # confirmation pass at tight tolerance
                 c_on, c_off = twin(case, tol=1e-13, cap=5000)
                 if c_on['outcome'] == 'ok' and c_off['outcome'] == 'ok':
-                    d2 = compare(c_on, c_off, 1e-7)
+                    d2 = compare(c_on, c_off, 1e-7, k0_exact=k0x)
                     if d2 is None:
                         st['noise_discarded'] = 1
                         d = None
